@@ -60,4 +60,25 @@ theorem shapeK_eq_shapeKOf (l : List M.Acq) :
         ((M.countsBy (fun a => a.key.drop 2) l).eraseDups)).1) :=
   M.SrcL.shapeK_eq l
 
+/-! ### Radial phase encoding (`KTrajectoryRpe`) -/
+
+/-- the k-space centre of every radial line is not shifted -/
+theorem rpe_centre_not_shifted (shifts : List Rat) (centre : Int) (k1 k2 : Nat) (h : (k1 : Int) = centre) :
+    M.rpeKrad shifts centre k1 k2 = 0 := M.rpeKrad_centre shifts centre k1 k2 h
+
+/-- the shift of a line depends on its own index `k2` modulo the number of shifts only — not on which other lines
+are in the file, not on the smallest `k2` present -/
+theorem rpe_shift_by_line_index (shifts : List Rat) (centre : Int) (k1 k2 : Nat) :
+    M.rpeKrad shifts centre k1 (k2 % shifts.length) = M.rpeKrad shifts centre k1 k2
+    ∧ M.rpeKrad shifts centre k1 (k2 + shifts.length) = M.rpeKrad shifts centre k1 k2 :=
+  ⟨M.rpeKrad_mod shifts centre k1 k2, M.rpeKrad_periodic shifts centre k1 k2⟩
+
+/-- shifts in [0, 1) keep the samples of a line in acquisition order: shifted points never cross -/
+theorem rpe_order_preserved (shifts : List Rat) (centre : Int) (k1 k1' k2 : Nat)
+    (hs : ∀ s ∈ shifts, 0 ≤ s ∧ s < 1) (h : k1 < k1') :
+    M.rpeKrad shifts centre k1 k2 < M.rpeKrad shifts centre k1' k2 :=
+  M.rpeKrad_strictMono shifts centre k1 k1' k2 hs h
+
+example : M.rpeKrad [0, 1/2, 1/4, 3/4] 2 3 5 = 3 / 2 ∧ M.rpeKrad [0, 1/2, 1/4, 3/4] 2 2 5 = 0 := by decide +kernel
+
 end C14
